@@ -456,3 +456,254 @@ pub fn gen_c06(r: &mut Rng, id: u64, thorough: bool) -> Value {
     ops.push(json!({"op": "fetch_all", "s": 1, "k": null, "c": null, "f": null, "lim": null, "ord": true, "desc": false}));
     json!({"id": id, "kind": "store", "prop": "C06", "file": true, "profile": "default", "ops": ops})
 }
+
+// ---------------------------------------------------------------------------------------------
+// C04, JSON side: the malformed / legacy filter-TEXT stream (executor and value encoding `jv`: c04j.rs, a
+// submodule of this one so that the crate builds whether or not main.rs dispatches `kind = "c04j"` yet)
+#[path = "c04j.rs"]
+pub mod c04j;
+
+fn jo(ms: Vec<(&str, Value)>) -> Value { json!({"obj": ms.into_iter().map(|(k, v)| json!([k, v])).collect::<Vec<_>>()}) }
+fn jn(lit: &str) -> Value { json!({"num": lit}) }
+fn jdeep(shape: &str, n: usize, v: Value) -> Value { json!({"deep": [shape, n, v]}) }
+
+/// a filter AST of the line protocol as its WQL JSON value (object form); `$and` of leaves is sometimes written as
+/// one object with several members (which may then repeat a key)
+fn c04j_ast_to_jv(r: &mut Rng, f: &Value) -> Value {
+    let (k, x) = match f.as_object().and_then(|o| o.iter().next()) { Some(p) => p, None => return jo(vec![]) };
+    let sv = |v: &Value| v.as_str().unwrap_or("").to_string();
+    match k.as_str() {
+        "and" | "or" => {
+            let subs: Vec<Value> = x.as_array().cloned().unwrap_or_default().iter().map(|q| c04j_ast_to_jv(r, q)).collect();
+            if k == "and" && r.chance(1, 3) {
+                let mut ms = vec![];
+                for s in &subs { ms.extend(s["obj"].as_array().cloned().unwrap_or_default()); }
+                json!({"obj": ms})
+            } else { jo(vec![(if k == "and" { "$and" } else { "$or" }, Value::Array(subs))]) }
+        }
+        "not" => { let q = c04j_ast_to_jv(r, x); jo(vec![("$not", q)]) }
+        "eq" => jo(vec![(&sv(&x[0]), x[1].clone())]),
+        "in" => jo(vec![(&sv(&x[0]), jo(vec![("$in", x[1].clone())]))]),
+        "exist" => {
+            let ns = x.as_array().cloned().unwrap_or_default();
+            if ns.len() == 1 && r.chance(1, 2) { jo(vec![("$exist", ns[0].clone())]) } else { jo(vec![("$exist", Value::Array(ns))]) }
+        }
+        op => jo(vec![(&sv(&x[0]), jo(vec![(&format!("${}", op), x[1].clone())]))]),
+    }
+}
+
+fn c04j_scalar(r: &mut Rng) -> Value {
+    match r.below(9) {
+        0 => Value::Null, 1 => json!(true), 2 => json!(false), 3 => jn("1"), 4 => jn("-0.5"), 5 => jn("1e3"),
+        6 => jn("18446744073709551616"), 7 => json!(""), _ => json!(*r.pick(TAG_VALUES)),
+    }
+}
+
+const C04J_KEYS: &[&str] = &["$and", "$or", "$not", "$exist", "$neq", "$gt", "$gte", "$lt", "$lte", "$like", "$in", "$regex", "$", "a", "~a", "~n", "b", ""];
+
+fn c04j_count(v: &Value) -> usize {
+    1 + match v {
+        Value::Array(a) => a.iter().map(c04j_count).sum(),
+        Value::Object(o) => o.get("obj").and_then(|m| m.as_array()).map_or(0, |ms| ms.iter().map(|m| c04j_count(&m[1])).sum()),
+        _ => 0,
+    }
+}
+
+/// type swap / structural mutation of the `target`-th node (pre-order) of a jv
+fn c04j_mutate(r: &mut Rng, v: &Value, next: &mut usize, target: usize) -> Value {
+    let me = *next;
+    *next += 1;
+    if me == target {
+        let is_obj = v.get("obj").is_some();
+        return match r.below(if is_obj { 14 } else { 9 }) {
+            0..=3 => c04j_scalar(r),
+            4 => json!([]),
+            5 => json!([v]),
+            6 => jo(vec![]),
+            7 => jo(vec![(*r.pick(C04J_KEYS), v.clone())]),
+            8 => json!([v, c04j_scalar(r)]),
+            // object-only: rename a key / repeat a key with another value / add a member / reverse the members / null a member
+            9 => { let mut ms = v["obj"].as_array().cloned().unwrap_or_default(); if !ms.is_empty() { let i = r.below(ms.len()); ms[i][0] = json!(*r.pick(C04J_KEYS)); } json!({"obj": ms}) }
+            10 => { let mut ms = v["obj"].as_array().cloned().unwrap_or_default(); if !ms.is_empty() { let i = r.below(ms.len()); let k = ms[i][0].clone(); let at = r.below(ms.len() + 1); ms.insert(at, json!([k, c04j_scalar(r)])); } json!({"obj": ms}) }
+            11 => { let mut ms = v["obj"].as_array().cloned().unwrap_or_default(); let at = r.below(ms.len() + 1); ms.insert(at, json!([*r.pick(C04J_KEYS), c04j_scalar(r)])); json!({"obj": ms}) }
+            12 => { let mut ms = v["obj"].as_array().cloned().unwrap_or_default(); ms.reverse(); json!({"obj": ms}) }
+            _ => { let mut ms = v["obj"].as_array().cloned().unwrap_or_default(); if !ms.is_empty() { let i = r.below(ms.len()); ms[i][1] = Value::Null; } json!({"obj": ms}) }
+        };
+    }
+    match v {
+        Value::Array(a) => Value::Array(a.iter().map(|x| c04j_mutate(r, x, next, target)).collect()),
+        Value::Object(o) => match o.get("obj").and_then(|m| m.as_array()) {
+            Some(ms) => json!({"obj": ms.iter().map(|m| json!([m[0], c04j_mutate(r, &m[1], next, target)])).collect::<Vec<_>>()}),
+            None => v.clone(),
+        },
+        _ => v.clone(),
+    }
+}
+
+/// one member of a legacy restriction list
+fn c04j_restriction(r: &mut Rng) -> Value {
+    match r.below(12) {
+        0 => jo(vec![]),
+        1 => match r.below(5) { 0 => Value::Null, 1 => jn("1"), 2 => json!("a"), 3 => json!([]), _ => json!(true) },
+        2 => { let f = filter(r, 1); c04j_ast_to_jv(r, &f) }
+        _ => {
+            let n = 1 + r.below(3);
+            let ms: Vec<Value> = (0..n).map(|_| {
+                let k = fname(r, None);
+                let v = match r.below(8) {
+                    0 | 1 => Value::Null,
+                    2 => jo(vec![("$neq", json!(*r.pick(TAG_VALUES)))]),
+                    3 => jo(vec![("$in", json!([*r.pick(TAG_VALUES), *r.pick(TAG_VALUES)]))]),
+                    4 => if r.chance(1, 2) { jo(vec![("$neq", Value::Null)]) } else { jn("5") },
+                    _ => json!(*r.pick(TAG_VALUES)),
+                };
+                json!([k, v])
+            }).collect();
+            json!({"obj": ms})
+        }
+    }
+}
+
+/// a serde_json value as jv (the map's own order)
+fn c04j_value_to_jv(v: &Value) -> Value {
+    match v {
+        Value::Number(n) => jn(&n.to_string()),
+        Value::Array(a) => Value::Array(a.iter().map(c04j_value_to_jv).collect()),
+        Value::Object(o) => json!({"obj": o.iter().map(|(k, x)| json!([k, c04j_value_to_jv(x)])).collect::<Vec<_>>()}),
+        x => x.clone(),
+    }
+}
+
+/// a text as given, with what serde_json's text layer makes of it (the part of the library that is a parameter of the
+/// model): the first JSON value of the text, if it starts with one, and whether anything but white space follows it
+fn c04j_raw(text: String) -> Value {
+    let mut de = serde_json::Deserializer::from_str(&text);
+    match <Value as serde::Deserialize>::deserialize(&mut de) {
+        Ok(v) => { let trail = de.end().is_err(); json!({"raw": text, "v": c04j_value_to_jv(&v), "trail": trail}) }
+        Err(_) => json!({"raw": text}),
+    }
+}
+
+/// the named examples: the legacy array form, `null`, every parse-error arm, duplicate keys, nesting at the limit
+fn c04j_corpus() -> Vec<Value> {
+    let s = |x: &str| json!(x);
+    let v = |jv: Value| json!({"v": jv});
+    let mut c = vec![
+        // legacy array form
+        v(json!([jo(vec![("a", s("1"))]), jo(vec![("b", Value::Null)]), jo(vec![])])),
+        v(json!([])), v(json!([jn("1")])), v(json!([jo(vec![])])), v(json!([jo(vec![("a", Value::Null)])])),
+        v(json!([jo(vec![("a", s("1"))])])), v(json!([jo(vec![("a", s("1")), ("~n", Value::Null)]), jo(vec![("~n", s("5"))])])),
+        v(json!([jo(vec![("a", s("1"))]), Value::Null])), v(json!([[jo(vec![("a", s("1"))])]])), v(json!([jo(vec![("a", jn("1"))])])),
+        v(json!([jo(vec![("a", jo(vec![("$neq", Value::Null)]))])])), v(json!([jo(vec![("$or", Value::Null), ("a", s("1"))])])),
+        v(json!([jo(vec![("$not", jo(vec![("a", s("1"))]))]), jo(vec![("~n", jo(vec![("$gte", s("5"))]))])])),
+        v(json!([jo(vec![("a", s("1")), ("a", Value::Null)])])), v(json!([jo(vec![("a", Value::Null), ("a", s("1"))])])),
+        // not an object or array
+        v(Value::Null), v(json!(true)), v(jn("1")), v(s("a")), v(s("{\"a\":\"1\"}")),
+        // object form: null, unsupported values
+        v(jo(vec![("a", Value::Null)])), v(jo(vec![("a", jn("5"))])), v(jo(vec![("a", json!(true))])), v(jo(vec![("a", json!([]))])),
+        v(jo(vec![("a", json!(["1"]))])), v(jo(vec![("a", s("1")), ("b", Value::Null)])), v(jo(vec![("$or", json!([jo(vec![("a", Value::Null)])]))])),
+        // operators with the wrong operand type
+        v(jo(vec![("a", jo(vec![("$neq", jn("1"))]))])), v(jo(vec![("a", jo(vec![("$gt", Value::Null)]))])), v(jo(vec![("~a", jo(vec![("$gte", json!([]))]))])),
+        v(jo(vec![("~a", jo(vec![("$lt", jo(vec![]))]))])), v(jo(vec![("~a", jo(vec![("$lte", json!(false))]))])), v(jo(vec![("~a", jo(vec![("$like", jn("1"))]))])),
+        v(jo(vec![("a", jo(vec![("$in", s("x"))]))])), v(jo(vec![("a", jo(vec![("$in", json!(["x", jn("1")]))]))])), v(jo(vec![("a", jo(vec![("$in", jo(vec![]))]))])),
+        v(jo(vec![("a", jo(vec![("$in", json!([]))]))])), v(jo(vec![("a", jo(vec![("$in", json!([Value::Null]))]))])),
+        v(jo(vec![("a", jo(vec![("$regex", s("x"))]))])), v(jo(vec![("a", jo(vec![("", s("x"))]))])), v(jo(vec![("a", jo(vec![("$NEQ", s("x"))]))])),
+        v(jo(vec![("a", jo(vec![]))])), v(jo(vec![("a", jo(vec![("$neq", s("1")), ("$gt", s("0"))]))])),
+        v(jo(vec![("$or", jo(vec![]))])), v(jo(vec![("$or", s("x"))])), v(jo(vec![("$or", Value::Null)])), v(jo(vec![("$or", json!([jn("1")]))])), v(jo(vec![("$or", json!([[]]))])),
+        v(jo(vec![("$and", jo(vec![]))])), v(jo(vec![("$and", jn("1"))])), v(jo(vec![("$and", json!([s("a")]))])), v(jo(vec![("$and", json!([Value::Null]))])),
+        v(jo(vec![("$not", json!([]))])), v(jo(vec![("$not", s("a"))])), v(jo(vec![("$not", Value::Null)])), v(jo(vec![("$not", json!([jo(vec![("a", s("1"))])]))])),
+        v(jo(vec![("$exist", jn("5"))])), v(jo(vec![("$exist", Value::Null)])), v(jo(vec![("$exist", jo(vec![]))])), v(jo(vec![("$exist", json!(["a", jn("1")]))])),
+        v(jo(vec![("$exist", json!([["a"]]))])), v(jo(vec![("$exist", json!([]))])), v(jo(vec![("$exist", s("a"))])),
+        // empty connectives, error after a good member, key order decides which error is reported
+        v(jo(vec![])), v(jo(vec![("$and", json!([]))])), v(jo(vec![("$or", json!([]))])), v(jo(vec![("$not", jo(vec![]))])),
+        v(jo(vec![("b", jn("1")), ("a", jo(vec![("$in", s("x"))]))])), v(jo(vec![("a", s("1")), ("$not", json!([]))])),
+        // duplicate keys: the last one wins, also inside the one-operator object and against the length check
+        v(jo(vec![("a", s("1")), ("a", s("2"))])), v(jo(vec![("a", jn("1")), ("a", s("2"))])), v(jo(vec![("a", s("2")), ("a", jn("1"))])),
+        v(jo(vec![("a", jo(vec![("$neq", s("1")), ("$neq", s("2"))]))])), v(jo(vec![("b", s("1")), ("a", s("2")), ("b", s("3"))])),
+        v(jo(vec![("$or", json!([jo(vec![("a", s("1"))])])), ("$or", json!([]))])), v(jo(vec![("~n", s("5")), ("a", s("1")), ("$exist", s("b"))])),
+    ];
+    // nesting: 127 containers are read, 128 are refused; far beyond (stack?)
+    for (shape, per) in [("arr", 1usize), ("not", 1), ("or", 2), ("and", 2), ("a", 1)] {
+        for total in [125usize, 126, 127, 128, 129, 1000, 5000] {
+            let inner = jo(vec![("a", s("1"))]);
+            let n = (total - 1) / per;
+            c.push(v(jdeep(shape, n, inner.clone())));
+            if per == 2 && total <= 129 { c.push(v(jdeep(shape, n, jo(vec![("a", json!([]))])))); }
+        }
+    }
+    c.push(v(jdeep("arr", 127, s("x"))));
+    c.push(v(jdeep("arr", 128, s("x"))));
+    c.push(v(jo(vec![("a", jdeep("arr", 127, jn("1"))), ("a", s("1"))])));   // too deep, although the deep member is overridden
+    c.push(v(json!([jo(vec![("a", jdeep("arr", 126, Value::Null))])])));
+    // not JSON at all / JSON with a twist
+    for t in ["", " ", "{", "}", "[", "]", "{\"a\":}", "{\"a\":\"1\"", "{\"a\":\"1\"}}", "{\"a\":\"1\"} x", "{'a':'1'}", "{a:\"1\"}", "NaN", "{\"a\":NaN}",
+              "{\"a\":1e999}", "[1e999]", "{\"a\":\"\\ud800\"}", "{\"a\":\"\\u0000\"}", "\u{feff}{}", " \n\t{ \"a\" :\r\"1\" } \n", "{\"a\":\"1\",}", "[{\"a\":\"1\"},]",
+              "{\"a\" \"1\"}", "{\"a\":\"1\"}{\"b\":\"2\"}", "nul", "tru", "{\"a\":\"\t\"}", "{\"a\":01}", "{\"a\":-}", "{\"a\":\"\\x\"}", "/*c*/{}", "{\"a\":\"1\"}\u{0}",
+              "{\"\\u0061\":\"1\",\"a\":\"2\"}", "{\"a\":\"\\ud83d\\ude00\"}", "{\"a\":1.0E+2}", "[{\"a\":null,}]", "{\"$or\":[{\"a\":\"1\"}", "\"", "{\"a\":\"1\"}\n\n", "{\"a\":\"1\"}//"] {
+        c.push(c04j_raw(t.to_string()));
+    }
+    c
+}
+
+/// C04 (JSON side): a populated profile, then malformed / legacy / mutated filter texts through `TagFilter::from_str`,
+/// `count` and `fetch_all`.  Deterministic from the seed; case i also carries its share of the named examples.
+pub fn gen_c04_json_malformed(r: &mut Rng, id: u64, thorough: bool) -> Value {
+    let nrec = 3 + r.below(if thorough { 12 } else { 6 });
+    let mut ops = vec![json!({"op": "session", "s": 0, "txn": false})];
+    for i in 0..nrec {
+        let t = match tags(r) { Value::Null => json!([]), t => t };
+        ops.push(json!({"op": "insert", "s": 0, "k": 2, "c": "c1", "n": format!("r{}", i), "v": value(r), "t": t, "e": null}));
+    }
+    let corpus = c04j_corpus();
+    let mut fs: Vec<Value> = vec![];
+    for j in 0..5 { fs.push(corpus[((id as usize) * 5 + j) % corpus.len()].clone()); }
+    let nf = if thorough { 14 } else { 8 };
+    for _ in 0..nf {
+        let depth = 1 + r.below(3);
+        let base = { let f = root_filter(r, depth); c04j_ast_to_jv(r, &f) };
+        let f = match r.below(12) {
+            // a valid filter text as is (object form)
+            0 | 1 => json!({"v": base}),
+            // type swaps / structural mutations of a valid filter (1-2 of them)
+            2..=5 => {
+                let mut m = base;
+                for _ in 0..(1 + r.below(2)) { let n = c04j_count(&m); let t = r.below(n); m = c04j_mutate(r, &m, &mut 0, t); }
+                json!({"v": m})
+            }
+            // legacy restriction lists
+            6..=8 => { let n = r.below(5); json!({"v": (0..n).map(|_| c04j_restriction(r)).collect::<Vec<_>>()}) }
+            // a valid filter wrapped close to the nesting limit
+            9 => {
+                let (shape, per) = *r.pick(&[("not", 1usize), ("or", 2), ("and", 2), ("arr", 1)]);
+                let d = c04j::depth(&base);
+                let total = *r.pick(&[100usize, 126, 127, 128, 200]);
+                json!({"v": jdeep(shape, total.saturating_sub(d) / per, base)})
+            }
+            // character-level damage to a rendered text
+            _ => {
+                let mut t = String::new();
+                c04j::render(&base, &mut t);
+                let mut cs: Vec<char> = t.chars().collect();
+                let at = r.below(cs.len() + 1);
+                match r.below(4) {
+                    0 => cs.truncate(at),
+                    1 => { if at < cs.len() { cs.remove(at); } }
+                    2 => cs.insert(at, *r.pick(&['{', '}', '[', ']', '"', ',', ':', '\\', 'a', '1', ' ', '\u{0}', 'é'])),
+                    _ => { if at < cs.len() { let c = cs[at]; cs.insert(at, c); } }
+                }
+                c04j_raw(cs.into_iter().collect())
+            }
+        };
+        fs.push(f);
+    }
+    for f in fs {
+        ops.push(json!({"op": "parse", "fjv": f}));
+        // through the store unless the reference reads a filter whose outcome depends on ciphertext order
+        let through = c04j::ref_text(&f).map_or(true, |a| c04j::store_safe(&a));
+        if through {
+            ops.push(json!({"op": "count", "s": 0, "k": 2, "c": null, "fjv": f}));
+            if r.chance(1, 2) { ops.push(json!({"op": "fetch_all", "s": 0, "k": 2, "c": null, "fjv": f, "lim": null, "ord": true, "desc": false})); }
+        }
+    }
+    json!({"id": format!("j{}", id), "kind": "c04j", "prop": "C04", "file": false, "profile": "default", "ops": ops})
+}
